@@ -160,3 +160,179 @@ where
 {
     c.nodes.index_map().into_iter().collect()
 }
+
+/// Trace recording for conformance checking of the crate's OWN test suite: when the environment variable
+/// `RATESLIB_VERIF_TRACE` names a file, the outermost call of each hooked function appends one ndjson event
+/// (arguments, result and a projection of the object's abstract state) to it. Sequential library: the
+/// linearisation point of a call is its return; events carry the thread id and a global sequence number.
+pub mod trace {
+    use crate::calendars::DateRoll;
+    use crate::dual::{Gradient1, Gradient2, Number, Vars};
+    use crate::fx::rates::{Ccy, FXRate, FXRates};
+    use chrono::{Datelike, NaiveDate, NaiveDateTime};
+    use serde_json::{json, Value};
+    use std::cell::Cell;
+    use std::io::Write;
+    use std::sync::atomic::{AtomicU64, Ordering};
+    use std::sync::{Mutex, OnceLock};
+
+    thread_local! { static DEPTH: Cell<u32> = const { Cell::new(0) }; }
+    static SEQ: AtomicU64 = AtomicU64::new(0);
+    static OUT: Mutex<()> = Mutex::new(());
+    static PATH: OnceLock<Option<String>> = OnceLock::new();
+
+    fn path() -> &'static Option<String> {
+        PATH.get_or_init(|| std::env::var("RATESLIB_VERIF_TRACE").ok())
+    }
+    /// tracing is on and this is not a call made from inside a traced call
+    pub fn active() -> bool {
+        path().is_some() && DEPTH.with(|d| d.get()) == 0
+    }
+    struct Guard;
+    impl Drop for Guard {
+        fn drop(&mut self) {
+            DEPTH.with(|d| d.set(d.get() - 1));
+        }
+    }
+    /// run `f` with tracing suspended (so that nested hooked calls are not logged)
+    pub fn suspended<T>(f: impl FnOnce() -> T) -> T {
+        DEPTH.with(|d| d.set(d.get() + 1));
+        let _g = Guard;
+        f()
+    }
+    pub fn emit(mut v: Value) {
+        if let Some(p) = path() {
+            let _l = OUT.lock().unwrap_or_else(|e| e.into_inner());
+            let seq = SEQ.fetch_add(1, Ordering::SeqCst);
+            v["seq"] = json!(seq);
+            v["thread"] = json!(format!("{:?}", std::thread::current().id()));
+            if v.get("key").is_none() {
+                v["key"] = json!(format!("repotest/{}", seq));
+            }
+            if let Ok(mut f) = std::fs::OpenOptions::new().create(true).append(true).open(p) {
+                let _ = writeln!(f, "{}", v);
+            }
+        }
+    }
+
+    fn fj(x: f64) -> Value {
+        let b = x.to_bits();
+        json!([(b >> 32) as u32 as i32, b as u32 as i32])
+    }
+    fn day(d: &NaiveDateTime) -> i64 {
+        (d.date() - NaiveDate::from_ymd_opt(1970, 1, 1).unwrap()).num_days()
+    }
+    fn from_day(d: i64) -> NaiveDateTime {
+        (NaiveDate::from_ymd_opt(1970, 1, 1).unwrap() + chrono::Duration::days(d))
+            .and_hms_opt(0, 0, 0)
+            .unwrap()
+    }
+    fn bitmap(lo: i64, hi: i64, f: impl Fn(&NaiveDateTime) -> bool) -> Value {
+        let n = (hi - lo + 1) as usize;
+        let mut words = vec![0i64; (n + 29) / 30];
+        for j in 0..n {
+            if f(&from_day(lo + j as i64)) {
+                words[j / 30] |= 1 << (j % 30);
+            }
+        }
+        json!(words)
+    }
+    /// one DateRoll call: the calendar projected on a window around the dates involved, and the query
+    pub fn dateroll<T: DateRoll + ?Sized>(cal: &T, dates: &[NaiveDateTime], q: Value) {
+        let _ = dates.iter().map(|d| d.year()).max();
+        let lo = dates.iter().map(day).min().unwrap() - 260;
+        let hi = dates.iter().map(day).max().unwrap() + 260;
+        let (bus, stl) = suspended(|| {
+            (
+                bitmap(lo, hi, |d| cal.is_bus_day(d)),
+                bitmap(lo, hi, |d| cal.is_settlement(d)),
+            )
+        });
+        emit(json!({"op":"cal","kind":"repotest","w0":lo,"n":hi-lo+1,"bus":bus,"stl":stl,"q":[q]}));
+    }
+
+    fn num_json(n: &Number) -> (f64, &'static str, Vec<String>, Vec<f64>) {
+        match n {
+            Number::F64(f) => (*f, "F", vec![], vec![]),
+            Number::Dual(d) => (d.real(), "D1", d.vars().iter().cloned().collect(), d.dual().to_vec()),
+            Number::Dual2(d) => (d.real(), "D2", d.vars().iter().cloned().collect(), d.dual().to_vec()),
+        }
+    }
+    /// how each quote depends on variables: a float quote is tagged fx_<pair> when derivatives are switched on
+    pub fn quotes_json(q: &[FXRate]) -> Value {
+        Value::Array(
+            q.iter()
+                .map(|r| {
+                    let (re, kind, vars, g) = num_json(&r.rate);
+                    let (l, rr) = (r.pair.0.name.to_string(), r.pair.1.name.to_string());
+                    let (vars, g) = if kind == "F" { (vec![format!("fx_{}{}", l, rr)], vec![1.0]) } else { (vars, g) };
+                    json!({"l": l, "r": rr, "v": fj(re), "vars": vars, "g": g.iter().map(|x| fj(*x)).collect::<Vec<_>>(),
+                           "settle": r.settlement.map(|d| day(&d)).unwrap_or(0), "kind": if kind == "F" {"F"} else {"D1"}})
+                })
+                .collect(),
+        )
+    }
+    pub fn fx_state(f: &FXRates) -> Value {
+        let ccys: Vec<String> = f.currencies.iter().map(|c| c.name.to_string()).collect();
+        let n = ccys.len();
+        let mut names: Vec<String> = vec![];
+        for r in f.fx_rates.iter() {
+            let (_, kind, vars, _) = num_json(&r.rate);
+            let vs = if kind == "F" { vec![format!("fx_{}{}", r.pair.0.name, r.pair.1.name)] } else { vars };
+            for v in vs {
+                if !names.contains(&v) {
+                    names.push(v);
+                }
+            }
+        }
+        let order = super::fxrates_ad(f);
+        let cc: Vec<Ccy> = f.currencies.iter().cloned().collect();
+        let (mut re, mut g, mut kinds, mut present, mut hp, mut h) = (vec![], vec![], vec![], vec![], vec![], vec![]);
+        for i in 0..n {
+            for j in 0..n {
+                let x = f.rate(&cc[i], &cc[j]).unwrap();
+                let (r, kind, vars, _) = num_json(&x);
+                re.push(fj(r));
+                kinds.push(kind);
+                present.push(json!(vars));
+                let grad: Vec<f64> = match &x {
+                    Number::F64(_) => vec![0.0; names.len()],
+                    Number::Dual(d) => d.gradient1(names.clone()).to_vec(),
+                    Number::Dual2(d) => d.gradient1(names.clone()).to_vec(),
+                };
+                g.push(Value::Array(grad.iter().map(|v| fj(*v)).collect()));
+                if let Number::Dual2(d) = &x {
+                    if n <= 4 {
+                        let m = d.gradient2(names.clone());
+                        hp.push(i * n + j + 1);
+                        h.push(Value::Array((0..names.len()).map(|a| Value::Array((0..names.len()).map(|b| fj(m[[a, b]])).collect())).collect()));
+                    }
+                }
+            }
+        }
+        let quotes: Vec<Value> = f.fx_rates.iter().map(|r| {
+            let (v, kind, _, _) = num_json(&r.rate);
+            json!({"l": r.pair.0.name.to_string(), "r": r.pair.1.name.to_string(), "v": fj(v), "kind": kind, "settle": r.settlement.map(|d| day(&d)).unwrap_or(0)})
+        }).collect();
+        let outsider = Ccy::try_new("xxx").unwrap();
+        json!({"ccys": ccys, "order": order, "names": names, "re": re, "g": g, "kinds": kinds, "vars": present, "hp": hp, "h": h,
+               "quotes": quotes, "unknown_none": f.rate(&outsider, &cc[0]).is_none()})
+    }
+    pub fn fx_history(ev: Vec<Value>) {
+        emit(json!({"h": 0, "ev": ev}));
+    }
+}
+
+pub fn trace_day(d: &NaiveDateTime) -> i64 {
+    (d.date() - chrono::NaiveDate::from_ymd_opt(1970, 1, 1).unwrap()).num_days()
+}
+pub fn trace_rollday(r: &crate::calendars::RollDay) -> serde_json::Value {
+    use crate::calendars::RollDay;
+    match r {
+        RollDay::Unspecified {} => serde_json::json!({"k": "Unspecified"}),
+        RollDay::Int { day } => serde_json::json!({"k": "Int", "day": day}),
+        RollDay::EoM {} => serde_json::json!({"k": "EoM"}),
+        RollDay::SoM {} => serde_json::json!({"k": "SoM"}),
+        RollDay::IMM {} => serde_json::json!({"k": "IMM"}),
+    }
+}
